@@ -18,7 +18,8 @@ RULE = ("history = one cell space (OrthogonalMooreGrid / OrthogonalVonNeumannGri
         "Grid2DMovingAgent) + up to 30 operations: cell assignment (incl. None, the same cell, a full cell), move_to, "
         "move_relative (existing and missing directions), Grid2DMovingAgent.move(name, k) (k from -1 to beyond the border, "
         "names in mixed case and invalid), remove (also repeated), model.remove_all_agents, select_random_empty_cell under both strategies and "
-        "placement into the cell it returned; the whole state view is observed after every operation. "
+        "placement into the cell it returned, and 'probe' points where the driver issues every kind of call that must be rejected in "
+        "the state reached (C18 fault enumeration: full cells, FixedAgent second cell, missing directions, paths leaving the grid); the whole state view is observed after every operation. "
         "non-trivial = at least 3 operations of which one was rejected or one cell held >= 2 agents or a removal happened; "
         "distinct = by SHA1 of the history")
 TRUSTED_BASE = [
@@ -231,6 +232,9 @@ def _gen_ops(rng, sp, kinds, n_ops):
             removed.add(a)
             where.pop(a, None)
         elif r < 0.92:
+            if rng.random() < 0.5:
+                ops.append(["probe"])
+                continue
             ops.append(["rand_empty", rng.random() < 0.5])
         else:
             ops.append(["place_rand", a, rng.random() < 0.5])
@@ -597,7 +601,68 @@ def run_impl(case):
         return {"obs": [[-1, 99] for _ in case["ops"]], "model": False,
                 "failures": [{"key": "C06/view/unexpected-exception", "op": -1, "what": f"observing a fresh space raised {type(e).__name__}: {e}"}]}
 
-    for i, op in enumerate(case["ops"]):
+    def probes():
+        """C18 fault enumeration: every kind of call the history says must be rejected in the current state
+        (at most 12, spread over agents and cells), as explicit operations"""
+        out = []
+        fullc = [c for c in range(ncells) if full(c, 0)]
+        for a in range(1, n + 1):
+            k = kinds[a - 1]
+            if k == "fixed":
+                if loc[a] is not None or a in dangling:
+                    out.append(["set", a, (loc[a] + 1) % ncells if loc[a] is not None else 0])
+                elif fullc:
+                    out.append(["set", a, fullc[a % len(fullc)]])
+                continue
+            tg = [c for c in fullc if c != loc[a]]
+            if tg:
+                out.append(["set" if a % 2 else "move_to", a, tg[a % len(tg)]])
+            if loc[a] is None:
+                out.append(["move_rel", a, [1] if sp["type"] == "network" else [0, 1]])
+            else:
+                cell = cells[loc[a]]
+                if sp["type"] == "network":
+                    cand = [[v] for v in list(sp["graph"]["nodes"]) + [max(sp["graph"]["nodes"]) + 1]]
+                elif sp["type"] == "voronoi":
+                    cand = [[loc[a], j] for j in range(ncells + 1)]
+                else:
+                    nd = len(sp["dims"])
+                    cand = []
+                    for ax in range(nd):
+                        for dlt in (-1, 1):
+                            v = [0] * nd
+                            v[ax] = dlt
+                            cand.append(v)
+                    cand.append([2] * nd)
+                missing = [d for d in cand if cell.connections.get(_key_of(sp, d)) is None]
+                if missing:
+                    out.append(["move_rel", a, missing[a % len(missing)]])
+                if k == "grid2d":
+                    out.append(["move2d", a, "nowhere", 1])
+                    for nm in ("north", "east", "southwest"):
+                        cur, off = cell, False
+                        for _ in range(7):
+                            cur = cur.connections.get(ORACLE_DIRS[nm])
+                            if cur is None:
+                                off = True
+                                break
+                        if off:
+                            out.append(["move2d", a, nm, 7])
+                            break
+        if len(out) > 12:
+            step_ = len(out) / 12.0
+            out = [out[int(j * step_)] for j in range(12)]
+        return out
+
+    queue = [list(o) for o in case["ops"]]
+    i = -1
+    while queue:
+        op = queue.pop(0)
+        if op[0] == "probe":
+            if not poisoned[0]:
+                queue[0:0] = probes()
+            continue
+        i += 1
         kind = op[0]
         op_m = list(op)
         a = op[1] if kind not in ("rand_empty", "remove_all") else None
@@ -807,6 +872,8 @@ def coq_case(case):
             ops.append(f"Remove {L.z(op[1])}")
         elif k == "remove_all":
             ops.append("RemoveAll")
+        elif k == "probe":
+            continue        # only present when the driver did not run (it expands probes into explicit operations)
         elif k == "rand_empty":
             ops.append(f"RandomEmpty {L.b(op[1])} {_opt(op[2] if len(op) > 2 else None)}")
         elif k == "place_rand":
